@@ -769,6 +769,20 @@ func (fr *Frame) fork() *Frame {
 }
 
 func (ex *Exec) jump(s *State, fr *Frame, from, to *ssa.BasicBlock) {
+	// leaving a loop through its condition (edge from the loop head to a block outside the loop)
+	if l := ex.prog.LoopsOf(fr.fn).ByHead[from]; l != nil && !l.Blocks[to] && !s.dead {
+		if spec := ex.loopSpecFor(fr, from); spec != nil && len(spec.ExitEnsures) > 0 {
+			fnName := normName(fr.fn.RelString(ex.prog.SSA.Pkg))
+			env := &SpecEnv{ex: ex, cur: s, old: ex.entryOf(fr), vars: map[string]Value{}, fn: fr.fn, fr: fr}
+			for i, c := range spec.ExitEnsures {
+				label := c.Label
+				if label == "" {
+					label = fmt.Sprintf("exit#%d", i+1)
+				}
+				ex.emit(s, "invariant", fmt.Sprintf("%s/%s/loop%d/%s/exit", ex.layer, fnName, l.Ordinal, label), env.evalProve(c.Expr), l.Pos, c.Src)
+			}
+		}
+	}
 	fr.prev = from
 	ex.runBlock(s, fr, to, 0)
 }
@@ -865,6 +879,12 @@ func (ex *Exec) atLoopHead(s *State, fr *Frame, b *ssa.BasicBlock, l *Loop) bool
 	}
 	// entering the loop
 	bindPhis(s, false)
+	if len(spec.Ghosts) > 0 {
+		genv := &SpecEnv{ex: ex, cur: s, old: ex.entryOf(fr), vars: map[string]Value{}, fn: fr.fn, fr: fr}
+		for _, g := range spec.Ghosts {
+			s.ghost[g.Label] = genv.eval(g.Expr)
+		}
+	}
 	evalInv(s, "entry")
 	// havoc
 	mods := ex.loopMods(fr.fn, l, spec)
